@@ -2118,7 +2118,8 @@ parseHandshake:
         SERVER_HELLO_DONE.
  */
         if ((hsType == SSL_HS_CERTIFICATE_REQUEST) &&
-            (ssl->hsState == SSL_HS_SERVER_HELLO_DONE))
+            (ssl->hsState == SSL_HS_SERVER_HELLO_DONE) &&
+            !(ssl->flags & SSL_FLAGS_CLIENT_AUTH))
         {
 /*
             This is where the client is first aware of requested client
